@@ -39,6 +39,26 @@ def main():
 
     K = ct.REGISTRY[req["function"]]
     cfg = req["cfg"]
+    # backend-layer contracts talk about other real modules of the repository: import them too
+    import importlib
+    for mname in tuple(getattr(K, "modules", ())) + tuple(getattr(K, "pre_import", ())):
+        if mname in sys.modules or not mname.startswith("pysnark"):
+            continue
+        try:
+            importlib.import_module(mname)
+        except ImportError:
+            if "flatbuffers" not in sys.modules:
+                # flatbuffers is absent in this sandbox; only its presence matters to the code replayed here
+                fb = types.ModuleType("flatbuffers")
+                fb.compat = types.ModuleType("flatbuffers.compat")
+                fb.compat.import_numpy = lambda: None
+                fb.Builder = type("Builder", (), {})
+                sys.modules["flatbuffers"] = fb
+                sys.modules["flatbuffers.compat"] = fb.compat
+                try:
+                    importlib.import_module(mname)
+                except Exception:
+                    pass
     model = req.get("model") or {}
     clause = req["clause"]
     p = be.snarkjsp
